@@ -5,6 +5,7 @@ pub mod derive;
 pub mod exact;
 pub mod keys;
 pub mod keys_gen;
+pub mod mutate;
 pub mod oracle;
 pub mod reconstruct;
 pub mod stats;
